@@ -20,6 +20,14 @@ for p in "$@"; do
   echo "== $p"
   ( cd "$vc" && VERIF_REPO="$wt" timeout 1500 ./check "$p" ${TIER:+--tier $TIER} 2>&1 | grep -E "^(OK|VIOLATION|KNOWN-FINDING|MACHINERY|driver build|setup|harness)" | cut -c1-300 )
 done
+# what each replay says (signature and detail), for the seeded change's metadata
+python3 - "$vc" <<'PY'
+import json,glob,sys
+for f in sorted(glob.glob(sys.argv[1]+'/replays/*.json')):
+    try: d=json.load(open(f))
+    except Exception: continue
+    print("REPLAY", f.split('/')[-1], "family="+str(d.get('family')), "case="+str(d.get('case')), "sig="+str(d.get('signature')), "|", str(d.get('detail'))[:260])
+PY
 if [ -n "${KEEP:-}" ]; then echo "kept: $wt $vc"; exit 0; fi
 git -C /repo worktree remove --force "$wt"
 rm -rf "$vc"
